@@ -549,7 +549,15 @@ func checkC19(c *c19Case, r *vstat.Run) outcome {
 			if len(c.Fields) == 0 {
 				expect, reason = tagMalformed, "struct without grammar fields"
 			}
-			if expect == tagUndecided {
+			quoteOpen := false
+			for _, tk := range all {
+				// a lone quote opens a literal that swallows the tokens up to the next one (single-quoted strings of
+				// any length are literals): what lies in between is text, not grammar
+				if tk.K == "lit" && (len(tk.T) < 2 || !strings.HasSuffix(tk.T, tk.T[:1])) || tk.T == "/*" {
+					quoteOpen = true
+				}
+			}
+			if expect == tagUndecided && !quoteOpen {
 				// whatever else is odd about the tags, a reference to an unknown token type cannot build
 				for _, tk := range all {
 					if tk.K == "ident" && !knownIdents[tk.T] {
@@ -719,14 +727,16 @@ func describeC19(c *c19Case) string {
 
 var soupAlphabet = []tagTok{
 	{"@", "@"}, {"@", "@"}, {"(", "("}, {")", ")"}, {"[", "["}, {"]", "]"}, {"{", "{"}, {"}", "}"}, {"|", "|"}, {"?", "?"}, {"*", "*"}, {"+", "+"},
-	{"!", "!"}, {"~", "~"}, {":", ":"}, {"=", "="}, {"lit", `"a"`}, {"lit", `'b'`}, {"lit", "`c`"}, {"lit", `"+"`}, {"lit", `""`},
+	{"!", "!"}, {"~", "~"}, {":", ":"}, {"=", "="}, {"lit", `"a"`}, {"lit", `'b'`}, {"lit", "`c`"}, {"lit", `"+"`}, {"lit", `""`}, {"lit", `"@"`}, {"lit", `'@'`},
 	{"ident", "Ident"}, {"ident", "Int"}, {"ident", "String"}, {"ident", "EOF"}, {"ident", "Unknown"}, {"ident", "ident"},
 	{"lit", `"unterminated`}, {"lit", "'"}, {"lit", "`raw"}, {"junk", "/*"}, {"junk", "1"}, {"junk", "1.5"}, {"junk", "\\"}, {"junk", "#"}, {"junk", ";"},
 }
 
 func genValidToks(t *rapid.T, depth int) []tagTok {
 	lit := func() tagTok {
-		return rapid.SampledFrom([]tagTok{{"lit", `"a"`}, {"lit", `'b'`}, {"lit", "`c`"}, {"lit", `"+"`}}).Draw(t, "vlit")
+		// (literals whose text is an operator of the tag language are literals like any other)
+		return rapid.SampledFrom([]tagTok{{"lit", `"a"`}, {"lit", `'b'`}, {"lit", "`c`"}, {"lit", `"+"`}, {"lit", `"@"`}, {"lit", `'@'`}, {"lit", "`@`"},
+			{"lit", `"("`}, {"lit", `"|"`}, {"lit", `'?'`}, {"lit", `"!"`}, {"lit", `":"`}, {"lit", `"~"`}, {"lit", `"@@"`}}).Draw(t, "vlit")
 	}
 	ident := func() tagTok {
 		return tagTok{"ident", rapid.SampledFrom([]string{"Ident", "Int", "String", "Float"}).Draw(t, "vident")}
@@ -744,6 +754,9 @@ func genValidToks(t *rapid.T, depth int) []tagTok {
 		case 1:
 			return []tagTok{ident()}
 		case 2:
+			if rapid.IntRange(0, 2).Draw(t, "caplit") == 0 {
+				return []tagTok{{"@", "@"}, lit()}
+			}
 			return []tagTok{{"@", "@"}, ident()}
 		case 3:
 			return []tagTok{lit(), {":", ":"}, ident()}
